@@ -278,4 +278,370 @@ theorem reachR_verdict {n : Nat} {s : S} (hr : ReachR n s) : s.a.verdict = .ok :
   | newItem _ ih => exact ih
   | noYields _ ih => exact ih
 
+/-! ## the quiescent run: an uninterrupted pass that dispatches nothing leaves nothing owed -/
+
+theorem dn_finishPass (s : S) (v : BitVec 32) : (finishPass s v).dispatchedNow = s.dispatchedNow := rfl
+theorem dn_returned (s : S) (r : Ret) : (returned s r).dispatchedNow = s.dispatchedNow := by
+  unfold returned; split <;> rfl
+theorem dn_bodyOf (s : S) (c : Fid) : (bodyOf s c).dispatchedNow = s.dispatchedNow := by
+  unfold bodyOf
+  split
+  · rfl
+  · split <;> rw [dn_returned]
+  · split <;> rw [dn_returned] <;> rfl
+  · rw [dn_returned]
+theorem dn_body (s : S) (c : Fid) : (body s c).dispatchedNow = true := by
+  unfold body; rw [dn_bodyOf]; rfl
+
+/-- a dispatch that dispatched nothing: there was no current fibre -/
+theorem dispatch_idle (s : S) (h : (dispatch s).dispatchedNow = false) :
+    s.k.current = none ∧ dispatch s = { s with mpc := .wake } := by
+  cases hc : s.k.current with
+  | some c =>
+    have : dispatch s = body s c := by unfold dispatch; rw [hc]
+    rw [this, dn_body] at h; cases h
+  | none =>
+    refine ⟨rfl, ?_⟩
+    unfold dispatch; rw [hc]
+
+theorem afterUpdate_idle (t : S) (h : (afterUpdate t).dispatchedNow = false) :
+    (handleTimerq t.k).runq = [] ∧ (afterUpdate t).a = t.a ∧ (afterUpdate t).mpc = .wake := by
+  unfold afterUpdate at h ⊢
+  obtain ⟨hc, e⟩ := dispatch_idle _ h
+  rw [e]
+  refine ⟨?_, rfl, rfl⟩
+  have hc' : (getNextTask (handleTimerq t.k)).current = none := hc
+  unfold getNextTask at hc'
+  split at hc'
+  · assumption
+  · cases hc'
+
+/-- inside an uninterrupted pass that has not (yet) dispatched anything -/
+structure QI (s : S) : Prop where
+  pc : PassPc s.mpc ∨ s.mpc = .idle ∨ ∃ t, s.mpc = .start (.next t)
+  fd : s.dispatchedNow = false → s.mpc = .fastDone true → s.a.owedFids = []
+  dd : s.dispatchedNow = false → DrainDone s → ∀ f ∈ s.a.owedFids, f ∈ s.k.runq
+  done : s.dispatchedNow = false → (s.mpc = .wake ∨ (∃ e, s.mpc = .woke e) ∨ s.mpc = .idle) → s.a.owedFids = []
+  hb : (s.mpc = .hRecv ∨ s.mpc = .hRecvd ∨ s.mpc = .hRel ∨ s.mpc = .hReld) → s.dispatchedNow = true
+
+theorem dn_mainAtomic (s : S) : (mainAtomic s).dispatchedNow = s.dispatchedNow := by
+  unfold mainAtomic; split <;> rfl
+
+theorem qi_mainAtomic {s : S} (hr : Reach s) (hq : Quiet s) (h : QI s) (hni : s.mpc ≠ .idle) : QI (mainAtomic s) := by
+  have h1 := reach_inv1 hr
+  have hma := h1.mainAq
+  unfold mainAtomic
+  split
+  · -- fast-path check
+    rename_i hpc
+    refine ⟨Or.inl trivial, fun _ hf => ?_, fun _ hd => ?_, fun _ hd => ?_, (fun hh => by rcases hh with e | e | e | e <;> cases e)⟩
+    · have hf' : MPc.fastDone (mqEmpty s.aq) = MPc.fastDone true := hf
+      injection hf' with he
+      have hfast := (reach_inv2 hr).fast (by rw [hpc]; trivial)
+      show s.a.owedFids = []
+      cases hl : s.a.owedFids with
+      | nil => rfl
+      | cons f r =>
+        exfalso
+        have hf : f ∈ s.a.owedFids := by rw [hl]; exact List.mem_cons_self
+        rcases reach_inv3 hr f hf with h' | h' | ⟨c, _, _, hc, _, _⟩
+        · have := not_empty_of_inAq h1 (reach_owned hr).1 hq h'
+          rw [this] at he; cases he
+        · rw [hfast.1] at h'; cases h'
+        · rw [hpc] at hc; cases hc
+    · rcases hd with ⟨c, hc, _⟩ | hc | hc <;> cases hc
+    · rcases hd with hc | ⟨e, hc⟩ | hc <;> cases hc
+  · rename_i c hpc
+    rw [hpc] at hma
+    have hpass : PassCont c := by
+      rcases h.pc with hp | hp | ⟨t, hp⟩
+      · rw [hpc] at hp; exact hp
+      · exact absurd hp hni
+      · rw [hpc] at hp; cases hp
+    refine ⟨Or.inl hpass, (fun _ hf => by cases hf), fun _ hd f hf => ?_, fun _ hd => ?_, (fun hh => by rcases hh with e | e | e | e <;> cases e)⟩
+    · rcases hd with ⟨c', _, hidle⟩ | hc | hc
+      · have hidle' : (step s.aq (.recv false)).recv = .idle := hidle
+        exact owed_in_runq hr (noHeld_of_mpc (by rw [hpc]; intro c; simp)) (drain_complete h1 (reach_owned hr).1 hq hma hidle') f hf
+      · cases hc
+      · cases hc
+    · rcases hd with hc | ⟨e, hc⟩ | hc <;> cases hc
+  · rename_i c hpc
+    have hpass : PassCont c := by
+      rcases h.pc with hp | hp | ⟨t, hp⟩
+      · rw [hpc] at hp; exact hp
+      · exact absurd hp hni
+      · rw [hpc] at hp; cases hp
+    refine ⟨Or.inl hpass, (fun _ hf => by cases hf), fun _ hd => ?_, fun _ hd => ?_, (fun hh => by rcases hh with e | e | e | e <;> cases e)⟩
+    · rcases hd with ⟨c', hc, _⟩ | hc | hc <;> cases hc
+    · rcases hd with hc | ⟨e, hc⟩ | hc <;> cases hc
+  · rename_i hpc
+    refine ⟨Or.inl trivial, (fun _ hf => by cases hf), fun hdn _ => h.dd hdn (Or.inr (Or.inl hpc)), fun _ hd => ?_, (fun hh => by rcases hh with e | e | e | e <;> cases e)⟩
+    rcases hd with hc | ⟨e, hc⟩ | hc <;> cases hc
+  · rename_i hpc
+    refine ⟨Or.inl trivial, (fun _ hf => by cases hf), fun _ hd => ?_, fun _ hd => ?_, fun _ => h.hb (Or.inl hpc)⟩
+    · rcases hd with ⟨c', hc, _⟩ | hc | hc <;> cases hc
+    · rcases hd with hc | ⟨e, hc⟩ | hc <;> cases hc
+  · rename_i hpc
+    refine ⟨Or.inl trivial, (fun _ hf => by cases hf), fun _ hd => ?_, fun _ hd => ?_, fun _ => h.hb (Or.inr (Or.inr (Or.inl hpc)))⟩
+    · rcases hd with ⟨c', hc, _⟩ | hc | hc <;> cases hc
+    · rcases hd with hc | ⟨e, hc⟩ | hc <;> cases hc
+  · rename_i hpc
+    refine ⟨Or.inl trivial, (fun _ hf => by cases hf), fun _ hd => ?_, fun hdn _ => ?_, (fun hh => by rcases hh with e | e | e | e <;> cases e)⟩
+    · rcases hd with ⟨c', hc, _⟩ | hc | hc <;> cases hc
+    · show (s.a.step .looked).owedFids = []
+      rw [owedFids_neutral s.a .looked trivial]
+      exact h.done hdn (Or.inl hpc)
+  · exact h
+
+theorem AfterBody.pass {pc : MPc} (h : AfterBody pc) : PassPc pc ∨ pc = .idle ∨ ∃ t, pc = .start (.next t) := by
+  cases pc <;> first | exact False.elim h | exact Or.inl trivial | exact Or.inr (Or.inl rfl)
+
+theorem dn_dispatch_true (s : S) (h : s.dispatchedNow = true) : (dispatch s).dispatchedNow = true := by
+  unfold dispatch; split
+  · exact dn_body _ _
+  · exact h
+
+/-- a state in which something has been dispatched satisfies `QI` as soon as its control location is one of a pass -/
+theorem qi_dispatched {s' : S} (hpc : PassPc s'.mpc ∨ s'.mpc = .idle ∨ ∃ t, s'.mpc = .start (.next t)) (hd : s'.dispatchedNow = true) : QI s' :=
+  ⟨hpc, (fun h => by rw [hd] at h; cases h), (fun h => by rw [hd] at h; cases h), (fun h => by rw [hd] at h; cases h), fun _ => hd⟩
+
+/-- `handle_timerq` … dispatch, in an uninterrupted pass that has dispatched nothing so far and in which every owed
+    fibre is on the run queue -/
+theorem qi_afterUpdate {t : S} (hq : QOk t.k) (hin : t.dispatchedNow = false → ∀ f ∈ t.a.owedFids, f ∈ t.k.runq) : QI (afterUpdate t) := by
+  cases hdn : (afterUpdate t).dispatchedNow with
+  | true => exact qi_dispatched (afterBody_afterUpdate t).pass hdn
+  | false =>
+    obtain ⟨hnil, ha, hm⟩ := afterUpdate_idle t hdn
+    have hdt : t.dispatchedNow = false := by
+      have : (afterUpdate t).dispatchedNow = t.dispatchedNow := by
+        unfold afterUpdate
+        rw [(dispatch_idle _ hdn).2]
+      rw [← this]; exact hdn
+    have hnone : (afterUpdate t).a.owedFids = [] := by
+      rw [ha]
+      cases hl : t.a.owedFids with
+      | nil => rfl
+      | cons f r =>
+        have := mem_runq_handleTimerq hq (hin hdt f (by rw [hl]; exact List.mem_cons_self))
+        rw [hnil] at this; cases this
+    refine ⟨Or.inl (by rw [hm]; trivial), (fun _ hf => by rw [hm] at hf; cases hf), fun _ hd => ?_, fun _ _ => hnone,
+            (fun hh => by rw [hm] at hh; rcases hh with e | e | e | e <;> cases e)⟩
+    unfold DrainDone at hd
+    rw [hm] at hd
+    rcases hd with ⟨c, hc, _⟩ | hc | hc <;> cases hc
+
+theorem qi_mainPlain {s : S} (hr : Reach s) (h : QI s) (hni : s.mpc ≠ .idle) : QI (mainPlain s) := by
+  have h1 := reach_inv1 hr
+  have hq2 := (reach_inv2 hr).q
+  have hma := h1.mainAq
+  have noH : ∀ {pc : MPc}, pc ≠ .hRecv → pc ≠ .hRecvd → pc ≠ .hRel → pc ≠ .hReld →
+      (pc = .hRecv ∨ pc = .hRecvd ∨ pc = .hRel ∨ pc = .hReld) → s.dispatchedNow = true := by
+    intro pc a b c d hh
+    rcases hh with e | e | e | e
+    · exact absurd e a
+    · exact absurd e b
+    · exact absurd e c
+    · exact absurd e d
+  unfold mainPlain
+  split
+  · -- start c: the pass is entered
+    rename_i c hpc
+    have hc : ∃ t, c = .next t := by
+      rcases h.pc with hp | hp | ⟨t, hp⟩
+      · rw [hpc] at hp; exact False.elim hp
+      · exact absurd hp hni
+      · rw [hpc] at hp; injection hp with hp; exact ⟨t, hp⟩
+    obtain ⟨t, rfl⟩ := hc
+    simp only [startCall]; unfold startNext
+    split
+    · refine ⟨Or.inl trivial, (fun _ hf => by cases hf), fun _ hd => ?_, fun _ hd => ?_, noH (by simp) (by simp) (by simp) (by simp)⟩
+      · rcases hd with ⟨c', hc, _⟩ | hc | hc <;> cases hc
+      · rcases hd with hc | ⟨e, hc⟩ | hc <;> cases hc
+    · refine ⟨Or.inl trivial, (fun _ hf => by cases hf), fun _ hd => ?_, fun _ hd => ?_, noH (by simp) (by simp) (by simp) (by simp)⟩
+      · rcases hd with ⟨c', hc, _⟩ | hc | hc <;> cases hc
+      · rcases hd with hc | ⟨e, hc⟩ | hc <;> cases hc
+  · -- fastDone
+    rename_i e hpc
+    split
+    · rename_i he
+      subst he
+      cases hdn : (dispatch s).dispatchedNow with
+      | true => exact qi_dispatched (afterBody_dispatch s).pass hdn
+      | false =>
+        obtain ⟨_, e⟩ := dispatch_idle s hdn
+        rw [e]
+        have hds : s.dispatchedNow = false := by rw [e] at hdn; exact hdn
+        refine ⟨Or.inl trivial, (fun _ hf => by cases hf), fun _ hd => ?_, fun _ _ => h.fd hds hpc, noH (by simp) (by simp) (by simp) (by simp)⟩
+        rcases hd with ⟨c', hc, _⟩ | hc | hc <;> cases hc
+    · refine ⟨Or.inl trivial, (fun _ hf => by cases hf), fun _ hd => ?_, fun _ hd => ?_, noH (by simp) (by simp) (by simp) (by simp)⟩
+      · rcases hd with ⟨c', hc, _⟩ | hc | hc <;> cases hc
+      · rcases hd with hc | ⟨e, hc⟩ | hc <;> cases hc
+  · -- recvd c
+    rename_i c hpc
+    rw [hpc] at hma
+    have hpass : PassCont c := by
+      rcases h.pc with hp | hp | ⟨t, hp⟩
+      · rw [hpc] at hp; exact hp
+      · exact absurd hp hni
+      · rw [hpc] at hp; cases hp
+    have hdd : s.aq.recv = .idle → DrainDone s := fun hi => Or.inl ⟨c, hpc, hi⟩
+    split
+    · refine ⟨Or.inl hpass, (fun _ hf => by cases hf), fun _ hd => ?_, fun _ hd => ?_, noH (by simp) (by simp) (by simp) (by simp)⟩
+      · rcases hd with ⟨c', hc, _⟩ | hc | hc <;> cases hc
+      · rcases hd with hc | ⟨e, hc⟩ | hc <;> cases hc
+    · rename_i hnh
+      rcases hma with hma | ⟨sl, k, hrv⟩
+      · have hin : s.dispatchedNow = false → ∀ f ∈ s.a.owedFids, f ∈ s.k.runq := fun hd => h.dd hd (hdd hma)
+        cases c with
+        | run f => exact False.elim hpass
+        | kill f => exact False.elim hpass
+        | pass1 =>
+          simp only [afterDrain]
+          split
+          · exact qi_afterUpdate hq2 hin
+          · split
+            · refine ⟨Or.inl trivial, (fun _ hf => by cases hf), fun _ hd => ?_, fun _ hd => ?_, noH (by simp) (by simp) (by simp) (by simp)⟩
+              · rcases hd with ⟨c', hc, _⟩ | hc | hc <;> cases hc
+              · rcases hd with hc | ⟨e, hc⟩ | hc <;> cases hc
+            · refine ⟨Or.inl trivial, (fun _ hf => by cases hf), fun hd _ => hin hd, fun _ hd => ?_, noH (by simp) (by simp) (by simp) (by simp)⟩
+              rcases hd with hc | ⟨e, hc⟩ | hc <;> cases hc
+            · exact qi_afterUpdate (t := { s with k := { s.k with priv := _ } }) (qok_lists hq2 rfl rfl) hin
+            · exact qi_afterUpdate hq2 hin
+        | pass2 c' =>
+          exact qi_afterUpdate (t := { s with k := makeRunnable s.k c' }) (qok_makeRunnable hq2 c')
+            (fun hd f hf => (mem_runq_makeRunnable c' f).mpr (Or.inl (hin hd f hf)))
+      · exact absurd hrv (hnh sl k)
+  · rename_i c hpc
+    have hpass : PassCont c := by
+      rcases h.pc with hp | hp | ⟨t, hp⟩
+      · rw [hpc] at hp; exact hp
+      · exact absurd hp hni
+      · rw [hpc] at hp; cases hp
+    refine ⟨Or.inl hpass, (fun _ hf => by cases hf), fun _ hd => ?_, fun _ hd => ?_, noH (by simp) (by simp) (by simp) (by simp)⟩
+    · rcases hd with ⟨c', hc, _⟩ | hc | hc <;> cases hc
+    · rcases hd with hc | ⟨e, hc⟩ | hc <;> cases hc
+  · -- taintFd
+    rename_i hpc
+    have e1 : (resetPriv s).k.runq = s.k.runq := by unfold resetPriv; split <;> rfl
+    have e2 : (resetPriv s).k.timerq = s.k.timerq := by unfold resetPriv; split <;> rfl
+    have e3 : (resetPriv s).a = s.a := by unfold resetPriv; split <;> rfl
+    have e4 : (resetPriv s).dispatchedNow = s.dispatchedNow := by unfold resetPriv; split <;> rfl
+    refine qi_afterUpdate (t := resetPriv s) (qok_lists hq2 e1 e2) (fun hd f hf => ?_)
+    rw [e3] at hf; rw [e1]; rw [e4] at hd
+    exact h.dd hd (Or.inr (Or.inr hpc)) f hf
+  · -- hRecvd: only reached after a dispatch
+    rename_i hpc
+    have hd := h.hb (Or.inr (Or.inl hpc))
+    split
+    · exact qi_dispatched (Or.inl trivial) hd
+    · exact qi_dispatched (afterBody_returned s _).pass (by rw [dn_returned]; exact hd)
+  · rename_i hpc
+    exact qi_dispatched (Or.inl trivial) (h.hb (Or.inr (Or.inr (Or.inr hpc))))
+  · -- woke e: the pass returns
+    rename_i e hpc
+    refine ⟨Or.inr (Or.inl rfl), (fun _ hf => by cases hf), fun _ hd => ?_, fun hdn _ => ?_, (fun hh => by rcases hh with e | e | e | e <;> cases e)⟩
+    · rcases hd with ⟨c', hc, _⟩ | hc | hc <;> cases hc
+    · show (s.a.step (.passEnd _)).owedFids = []
+      rw [owedFids_neutral s.a (.passEnd _) trivial]
+      exact h.done hdn (Or.inr (Or.inl ⟨e, hpc⟩))
+  · exact h
+
+theorem mainAtomic_not_idle (s : S) (h : s.mpc ≠ .idle) : (mainAtomic s).mpc ≠ .idle := by
+  unfold mainAtomic
+  split <;> first | (intro e; cases e) | exact h
+
+/-- what an uninterrupted pass ends with -/
+def PassEnd (n : Nat) (s' : S) : Prop :=
+  s'.hung = true ∨ (ReachR n s' ∧ Quiet s' ∧ s'.mpc = .idle ∧ (s'.dispatchedNow = false → s'.a.owedFids = []))
+
+theorem qi_runMain {n : Nat} (c : MCall) :
+    ∀ (fuel k : Nat) (s : S), ReachR n s → Quiet s → QI s → s.mpc ≠ .idle → PassEnd n (runMain noGap c fuel k s)
+  | 0, _, _, _, _, _, _ => Or.inl rfl
+  | fuel + 1, k, s, hr, hq, hqi, hni => by
+    unfold runMain
+    simp only [noGap]
+    have hr1 : ReachR n (mainPlain s) := ReachR.mainPlain hr hq
+    have hq1 : Quiet (mainPlain s) := fun i hi => by rw [mainPlain_ipc]; exact hq i hi
+    have hqi1 : QI (mainPlain s) := qi_mainPlain (reachR_reach hr) hqi hni
+    split
+    · rename_i hidle
+      refine Or.inr ⟨ReachR.tok _ (ReachR.nops k hr1), hq1, hidle, fun hdn => ?_⟩
+      exact hqi1.done hdn (Or.inr (Or.inr hidle))
+    · rename_i hnidle
+      have hni1 : (mainPlain s).mpc ≠ .idle := fun e => hnidle e
+      exact qi_runMain c fuel (k + 1) _ (ReachR.mainAtomic hr1 hq1)
+        (fun i hi => by rw [mainAtomic_ipc]; exact hq1 i hi)
+        (qi_mainAtomic (reachR_reach hr1) hq1 hqi1 hni1) (mainAtomic_not_idle _ hni1)
+
+theorem hung_runMain_noGap (c : MCall) : ∀ (fuel k : Nat) (s : S), s.hung = true → (runMain noGap c fuel k s).hung = true
+  | 0, _, _, _ => rfl
+  | fuel + 1, k, s, h => by
+    unfold runMain
+    simp only [noGap]
+    split
+    · show (mainPlain s).hung = true; rw [mainPlain_hung]; exact h
+    · exact hung_runMain_noGap c fuel (k + 1) _ (by rw [mainAtomic_hung, mainPlain_hung]; exact h)
+
+theorem qi_callMain {n : Nat} {s : S} (h : Good n [] s) (t : BitVec 32) : PassEnd n (callMain noGap (.next t) s) := by
+  unfold callMain
+  split
+  · rename_i hidle
+    rcases h with hh | ⟨hr, hq⟩
+    · -- already cut: every step keeps it cut
+      exact Or.inl (hung_runMain_noGap _ _ _ _ hh)
+    · have hq' : Quiet s := fun i hi => hq i hi List.not_mem_nil
+      refine qi_runMain (.next t) _ _ _ (ReachR.enterMain _ hr hq' hidle trivial) hq' ?_ (by intro e; cases e)
+      refine ⟨Or.inr (Or.inr ⟨t, rfl⟩), (fun _ hf => by cases hf), fun _ hd => ?_, fun _ hd => ?_,
+              (fun hh => by rcases hh with e | e | e | e <;> cases e)⟩
+      · rcases hd with ⟨c', hc, _⟩ | hc | hc <;> cases hc
+      · rcases hd with hc | ⟨e, hc⟩ | hc <;> cases hc
+  · exact Or.inl rfl
+
+theorem good_of_passEnd {n : Nat} {s : S} (h : PassEnd n s) : Good n [] s := by
+  rcases h with h | ⟨hr, hq, _, _⟩
+  · exact Or.inl h
+  · exact Or.inr ⟨hr, fun j hj _ => hq j hj⟩
+
+theorem qi_quiesceLoop {n : Nat} : ∀ (m : Nat) (s : S), Good n [] s → PassEnd n (quiesceLoop (m + 1) s)
+  | 0, s, h => by
+    unfold quiesceLoop
+    simp only
+    split
+    · unfold quiesceLoop; exact qi_callMain h _
+    · exact qi_callMain h _
+  | m + 1, s, h => by
+    unfold quiesceLoop
+    simp only
+    split
+    · exact qi_quiesceLoop m _ (good_of_passEnd (qi_callMain h _))
+    · exact qi_callMain h _
+
+/-- **after a quiescent run that ended with an idle pass nothing is owed and no event whose send returned true is
+    outstanding** -/
+theorem settled_of_passEnd {n : Nat} {s : S} (h : PassEnd n s) (hh : s.hung = false) (hidle : s.dispatchedNow = false) :
+    s.a.owed = [] ∧ s.a.mustGet = [] ∧ s.a.verdict = .ok := by
+  rcases h with e | ⟨hr, hq, hm, hown⟩
+  · rw [hh] at e; cases e
+  · have hof := hown hidle
+    have hnil : s.a.owed = [] := by
+      cases ho : s.a.owed with
+      | nil => rfl
+      | cons x r =>
+        have : x.1 ∈ s.a.owedFids := by unfold A.owedFids; rw [ho]; exact List.mem_cons_self
+        rw [hof] at this; cases this
+    refine ⟨hnil, ?_, reachR_verdict hr⟩
+    cases hmg : s.a.mustGet with
+    | nil => rfl
+    | cons x r =>
+      exfalso
+      rcases (reachR_monW hr).mm (by rw [hmg]; simp) with h' | h'
+      · rw [hof] at h'; cases h'
+      · exact not_running_of_mpc (by rw [hm]; simp) (by rw [hm]; simp) (by rw [hm]; simp) (by rw [hm]; simp) h'
+
+instance (n : Nat) (c : MCall) : Decidable (MCallOk n c) := by cases c <;> unfold MCallOk <;> infer_instance
+instance (n : Nat) (c : ICall) : Decidable (ICallOk n c) := by cases c <;> unfold ICallOk <;> infer_instance
+instance (n : Nat) (e : Isr) : Decidable (IsrOk n e) := by unfold IsrOk; infer_instance
+instance (n : Nat) (sc : Script) : Decidable (ScriptOk n sc) := by unfold ScriptOk; infer_instance
+instance (n : Nat) (it : Item) : Decidable (ItemOk n it) := by cases it <;> unfold ItemOk <;> infer_instance
+
 end Librfn.Isr.L
